@@ -38,11 +38,11 @@ def mixed_shapes():
 def main(tier, seed):
     if tier == "quick":
         shapes = E.curated_shapes()
-        p = dict(nops=3, maxdev=1, bfs_depth=4, probe_every=7, timing_depth=12)
+        p = dict(nops=3, maxdev=1, bfs_depth=4, probe_every=7, timing_depth=24)
     else:
         fam = E.family_shapes()
         shapes = E.curated_shapes() + fam
-        p = dict(nops=4, maxdev=2, bfs_depth=7, probe_every=11, timing_depth=18, light_names=[s["name"] for s in fam], light_nops=3, light_bfs=5)
+        p = dict(nops=4, maxdev=2, bfs_depth=7, probe_every=11, timing_depth=30, light_names=[s["name"] for s in fam], light_nops=3, light_bfs=5)
     sigs = sig_shapes() + mixed_shapes()
     return E.run_check(PID, tier, seed, shapes=shapes + sigs, sig_names={s["name"] for s in sigs}, **p)
 
